@@ -39,6 +39,9 @@ func init() {
 			{Name: "final-stage-faults", N: constN(300, 6000), Gen: c03GenFinalStage, Eval: c03Eval},
 			{Name: "after-other-projects", N: constN(600, 15000), Gen: c03GenMultiFault, Eval: c03EvalHistory},
 			{Name: "after-failed-projects", N: constN(500, 12000), Gen: c03GenAfterFailure, Eval: c03EvalAfterFailure},
+			{Name: "rejected-after-rejected", N: func(string) int { return len(c03Rejected) * len(c03Rejected) }, Gen: func(r *xrand.Rand, idx int, tier string) *fw.Case {
+				return &fw.Case{Ints: map[string]int{"i": idx / len(c03Rejected), "j": idx % len(c03Rejected)}, Docs: []run.Doc{{}}}
+			}, Eval: c03EvalRejectedPair},
 			{Name: "concurrent", N: constN(150, 3000), Gen: c03GenMultiFault, Eval: c03EvalConcurrent},
 			{Name: "concurrent-accepted", N: constN(400, 8000), Gen: genModelCase, Eval: c03EvalConcurrentModel},
 		},
@@ -551,6 +554,49 @@ func c03EvalAfterFailure(t *fw.T, c *fw.Case) {
 		}
 	}
 	t.Distinct(c.Meta["kinds"] + " | " + outcomeClass(first))
+}
+
+// c03Rejected: projects that are rejected at different places of the library (scanner, contexts, names, the schema
+// dependency in a type / a response / a request, the example generator of regular expressions, includes). Every ordered
+// pair (i, j): project i, then project j, then project i again - the diagnostic of i is the same both times (what the
+// rejection of another project leaves behind must not leak into it).
+var c03Rejected = []string{
+	"JSIGHT 0.3\nGET /a\n  200 any\n  !bad\n",
+	"JSIGHT 0.3\nTYPE @t\n{}\nBody any\n",
+	"JSIGHT 0.3\nTYPE @d\n1\nTYPE @d\n2\n",
+	"JSIGHT 0.3\nTYPE @t\n{\n  \"id\": 1 // {min: 5}\n}\n",
+	"JSIGHT 0.3\nGET /a\n  200\n  {\n    \"id\": 1 // {min: 5}\n  }\n",
+	"JSIGHT 0.3\nPOST /a\n  Request\n  {\n    \"s\": \"x\" // {type: \"integer\"}\n  }\n  200 any\n",
+	"JSIGHT 0.3\nGET /cats\n  200 regex\n  /[^\\x00-\\x{10FFFF}]/\n",
+	"JSIGHT 0.3\nTYPE @r regex\n/[^\\x00-\\x{10FFFF}]/\n",
+	"JSIGHT 0.3\nPOST /cats\n  Request regex\n  /a[^\\x00-\\x{10FFFF}]b/\n  200 any\n",
+	"JSIGHT 0.3\nGET /a\n  200 @nosuch\n",
+	"JSIGHT 0.3\nGET /a\n  Tags @nosuch\n  200 any\n",
+	"JSIGHT 0.3\nINCLUDE missing.jst\n",
+	"JSIGHT 0.3\nGET /a/{id}\n  Path\n  {\"nosuch\": 1}\n  200 any\n",
+	"JSIGHT 0.3\nTYPE @h\n{ // {allOf: \"@nobase\"}\n}\n",
+	"JSIGHT 0.3\nENUM @e\n[1, 1]\n",
+	"JSIGHT 0.3\nGET /a\n  200\n",
+}
+
+func c03EvalRejectedPair(t *fw.T, c *fw.Case) {
+	i, j := c.Ints["i"], c.Ints["j"]
+	di, dj := run.Single([]byte(c03Rejected[i])), run.Single([]byte(c03Rejected[j]))
+	c.Docs = []run.Doc{di, dj}
+	first := t.Exec(di)
+	other := t.Exec(dj)
+	again := t.Exec(di)
+	t.Count("repetitions")
+	t.Count("rejected_pairs_compared")
+	if first.Outcome == run.Rejected {
+		t.Count("rejected_pairs_first_rejected")
+	}
+	if fingerprint(first) != fingerprint(again) {
+		t.Violation("depends-on-rejected-predecessor:"+c03Sig(first, again), fmt.Sprintf("the same project gives another result after another rejected project was processed in the same process:\n  before: %s\n  after:  %s\n  in between: %s\n  project %q\n  the other %q",
+			describe(first), describe(again), describe(other), c03Rejected[i], c03Rejected[j]))
+		return
+	}
+	t.Distinct(fmt.Sprintf("rejected pair %d", i))
 }
 
 // ---- cross-process comparison ----
